@@ -74,7 +74,7 @@ def stepC04 (c : PCase) (st : C04State) (op : List String) (r : PR) : C04State :
   | _ => { st with ok := false, note := "bad op" }
 
 def oracleC04 (c : PCase) (o : PObs) : Bool × String :=
-  let st0 : C04State := { h := { codec := specCodec c.cfg.codec, audio := specAudio c } }
+  let st0 : C04State := { h := { codec := specCodec c.cfg.codec, audio := specAudio c, width := c.cfg.width, height := c.cfg.height } }
   let st := (List.zip c.ops o.replies).foldl (fun st (op, r) => stepC04 c st op r.1) st0
   (st.ok && o.replies.length == c.ops.length || (st.ok && (o.replies.getLast?.map (·.1)) != some PR.panic &&
      -- a consuming finish ends the case early
